@@ -49,28 +49,71 @@ Proof.
     + subst h1. unfold halloc. simpl. rewrite app_length. simpl. lia.
 Qed.
 
+(* load_state_dict(): the loaded history is again a FRESH cell (deepcopy): it holds the saved history, and it is neither the
+   caller's list inside the state_dict nor any cell that existed before -- so stepping the loaded accountant in place
+   never reaches the state_dict (which may be loaded into a second accountant) or the accountant it was taken from *)
+Lemma acc_load_fresh (h : heap T) (b : acc) (d : asd) l m : sd_get d "history" = Some (VLoc l) -> sd_get d "mechanism" = Some (VMech m) ->
+  a_mech b = m -> acc_load_state_dict h b (Some d) = Ok (fst (halloc h (hget h l)), mkacc (List.length h) (a_mech b)).
+Proof.
+  intros Hh Hm Hb. unfold acc_load_state_dict, sd_none_or_empty, sd_lacks, sd_mech_differs, sd_hist_loc.
+  destruct d as [|kv d]; [discriminate|]. cbn [lnull]. rewrite Hh, Hm. cbn [oisSome negb bind]. subst m. unfold pystr_eqb. rewrite String.eqb_refl. reflexivity.
+Qed.
+
 Theorem acc_roundtrip (h : heap T) (a b : acc) : (a_loc a < List.length h)%nat -> a_mech b = a_mech a ->
   let h1 := fst (acc_state_dict h a) in let d := snd (acc_state_dict h a) in
-  exists b', acc_load_state_dict b (Some d) = Ok b' /\ a_mech b' = a_mech a /\ hget h1 (a_loc b') = hget h (a_loc a).
+  exists h2 b' l, sd_get d "history" = Some (VLoc l) /\ acc_load_state_dict h1 b (Some d) = Ok (h2, b') /\ a_mech b' = a_mech a /\
+    hget h2 (a_loc b') = hget h (a_loc a) /\ a_loc b' <> l /\ a_loc b' <> a_loc a /\
+    (forall v, hget (hset h2 (a_loc b') v) l = hget h (a_loc a) /\ hget (hset h2 (a_loc b') v) (a_loc a) = hget h (a_loc a)).
 Proof.
   intros Hl Hm. cbv beta zeta. unfold acc_state_dict.
   destruct (halloc h (hget h (a_loc a))) as [h1 l] eqn:E. cbn [fst snd].
-  unfold acc_load_state_dict. cbn. unfold pystr_eqb. rewrite Hm, String.eqb_refl. cbn.
-  eexists. split; [reflexivity|]. split; [reflexivity|]. cbn.
-  assert (h1 = fst (halloc h (hget h (a_loc a))) /\ l = snd (halloc h (hget h (a_loc a)))) as [-> ->] by now rewrite E.
-  apply hget_alloc_new.
+  assert (h1 = h ++ [hget h (a_loc a)] /\ l = List.length h) as [-> ->] by (unfold halloc in E; now inversion E).
+  set (h1 := h ++ [hget h (a_loc a)]).
+  assert (L1 : List.length h1 = S (List.length h)) by (unfold h1; rewrite app_length; simpl; lia).
+  assert (G1 : hget h1 (List.length h) = hget h (a_loc a)) by (unfold h1, hget; rewrite app_nth2 by lia; now rewrite Nat.sub_diag).
+  assert (G0 : hget h1 (a_loc a) = hget h (a_loc a)) by (unfold h1, hget; now rewrite app_nth1).
+  exists (fst (halloc h1 (hget h1 (List.length h)))), (mkacc (List.length h1) (a_mech b)), (List.length h).
+  split; [reflexivity|]. split.
+  { apply acc_load_fresh with (m := a_mech a); [reflexivity|reflexivity|exact Hm]. }
+  cbn [a_loc a_mech]. split; [exact Hm|]. split.
+  { transitivity (hget h1 (List.length h)); [|exact G1]. exact (hget_alloc_new h1 (hget h1 (List.length h))). }
+  split; [lia|]. split; [lia|]. intros v.
+  assert (L2 : (List.length h1 < List.length (fst (halloc h1 (hget h1 (List.length h)))))%nat) by (unfold halloc; simpl; rewrite app_length; simpl; lia).
+  split; (rewrite hget_hset_other; [|lia|exact L2]); rewrite hget_alloc_old by lia; assumption.
 Qed.
 
-Theorem acc_load_rejects_none (a : acc) : acc_load_state_dict a None = Err ValueError.
+(* one state_dict loaded into two accountants: two different cells *)
+Theorem acc_load_twice_isolated (h : heap T) (b1 b2 : acc) (d : asd) l m h1 c1 h2 c2 :
+  sd_get d "history" = Some (VLoc l) -> sd_get d "mechanism" = Some (VMech m) -> a_mech b1 = m -> a_mech b2 = m -> (l < List.length h)%nat ->
+  acc_load_state_dict h b1 (Some d) = Ok (h1, c1) -> acc_load_state_dict h1 b2 (Some d) = Ok (h2, c2) ->
+  a_loc c1 <> a_loc c2 /\ a_loc c1 <> l /\ a_loc c2 <> l /\ hget h2 (a_loc c1) = hget h l /\ hget h2 (a_loc c2) = hget h l /\
+  (forall v, hget (hset h2 (a_loc c1) v) (a_loc c2) = hget h l /\ hget (hset h2 (a_loc c1) v) l = hget h l).
+Proof.
+  intros Hh Hm M1 M2 Hl E1 E2.
+  rewrite (acc_load_fresh h b1 d l m Hh Hm M1) in E1. inversion E1; subst h1 c1; clear E1.
+  rewrite (acc_load_fresh _ b2 d l m Hh Hm M2) in E2. inversion E2; subst h2 c2; clear E2.
+  cbn [a_loc]. unfold halloc. cbn [fst]. rewrite !app_length. cbn [List.length].
+  assert (A : hget (h ++ [hget h l]) l = hget h l) by (unfold hget; now rewrite app_nth1).
+  rewrite A.
+  assert (B : forall x, hget ((h ++ [hget h l]) ++ [x]) (List.length h) = hget h l).
+  { intros x. unfold hget. rewrite app_nth1 by (rewrite app_length; simpl; lia). rewrite app_nth2 by lia. now rewrite Nat.sub_diag. }
+  assert (C : forall x, hget ((h ++ [hget h l]) ++ [x]) (List.length h + 1) = x).
+  { intros x. unfold hget. rewrite app_nth2 by (rewrite app_length; simpl; lia). rewrite app_length. simpl. now rewrite Nat.sub_diag. }
+  assert (D : forall x, hget ((h ++ [hget h l]) ++ [x]) l = hget h l).
+  { intros x. unfold hget. rewrite app_nth1 by (rewrite app_length; simpl; lia). now rewrite app_nth1. }
+  repeat split; try lia; try apply B; try apply C; rewrite hget_hset_other; try lia; try apply C; try apply D; rewrite !app_length; simpl; lia.
+Qed.
+
+Theorem acc_load_rejects_none (h : heap T) (a : acc) : acc_load_state_dict h a None = Err ValueError.
 Proof. reflexivity. Qed.
-Theorem acc_load_rejects_empty (a : acc) : acc_load_state_dict a (Some []) = Err ValueError.
+Theorem acc_load_rejects_empty (h : heap T) (a : acc) : acc_load_state_dict h a (Some []) = Err ValueError.
 Proof. reflexivity. Qed.
-Theorem acc_load_rejects_no_history (a : acc) m : acc_load_state_dict a (Some [("mechanism", VMech m)]) = Err ValueError.
+Theorem acc_load_rejects_no_history (h : heap T) (a : acc) m : acc_load_state_dict h a (Some [("mechanism", VMech m)]) = Err ValueError.
 Proof. reflexivity. Qed.
-Theorem acc_load_rejects_no_mechanism (a : acc) l : acc_load_state_dict a (Some [("history", VLoc l)]) = Err ValueError.
+Theorem acc_load_rejects_no_mechanism (h : heap T) (a : acc) l : acc_load_state_dict h a (Some [("history", VLoc l)]) = Err ValueError.
 Proof. reflexivity. Qed.
-Theorem acc_load_rejects_other_mechanism (h : heap T) (a b : acc) : a_mech b <> a_mech a ->
-  acc_load_state_dict b (Some (snd (acc_state_dict h a))) = Err ValueError.
+Theorem acc_load_rejects_other_mechanism (h h' : heap T) (a b : acc) : a_mech b <> a_mech a ->
+  acc_load_state_dict h' b (Some (snd (acc_state_dict h a))) = Err ValueError.
 Proof.
   intros Hm. unfold acc_state_dict. destruct (halloc h (hget h (a_loc a))) as [h1 l]. cbn.
   unfold acc_load_state_dict. cbn. unfold pystr_eqb. destruct (String.eqb_spec (a_mech b) (a_mech a)) as [E|E]; [contradiction|reflexivity].
